@@ -119,7 +119,8 @@ impl UiTokenCollection {
 
     fn check_collision(&self, start_position: usize, end_position: usize) -> bool {
         for item in self.iter() {
-            if (item.start <= start_position && item.end > start_position) || item.start < end_position && item.end >= end_position {
+            /* Two spans collide when they share a position, also when one contains the other */
+            if item.start < end_position && start_position < item.end {
                 return false
             }
         }
